@@ -24,6 +24,9 @@ def run_format_project(ctx, eng, k, stdin):
     eng.unsupported_as_outcome = False
     eng.inline_only = [re.compile(r'^format_project$|format_project::'), re.compile(r'^should_skip_module$'), re.compile(r'FormatContext::<.*>::ignore_file$|FormatContext.*ignore_file$'),
                        re.compile(r'src/config/config_type\.rs'), re.compile(r'^Config::')]
+    # small helpers of the same file that the gate is split into (e.g. a helper around the generated-marker test) belong to it
+    old_pred = eng.inline_pred
+    eng.inline_pred = lambda e, nm, callee: e.fn_file(nm) == FM and len(e.get_fn(nm).blocks) <= 30 and not re.search(r'format_file|echo_back_stdin|format_input_inner|format_lines|handle_formatted_file', nm)
     st = State()
     cfgref, cv = make_config(eng, st)
     skipattr = [z3.Bool('module%d.has_skip_attribute' % i) for i in range(k)]
@@ -163,6 +166,7 @@ def run_format_project(ctx, eng, k, stdin):
         eng.stubs = []
         eng.lenient = False
         eng.inline_only = None
+        eng.inline_pred = old_pred
     for o in outs:
         if o.kind == 'unwind':
             raise Inconclusive('unwinding assertion in format_project: %s' % (o.info,))
